@@ -207,7 +207,17 @@ func initTimeStubs() {
 		// The model's epoch is the zero time itself (instants are non-negative in harnesses).
 		pos := BVCmp("bvslt", BVConst(0, 64), d)
 		safeD := Ite(pos, d, BVConst(1, 64))
-		tr := BVBin("bvsub", ns, BVBin("bvsrem", ns, safeD))
+		var tr *Term
+		if mathInts {
+			// Truncate rounds down relative to Go's ZERO time (year 1), while the model's instants count from
+			// the Unix epoch: the two origins are 62135596800 s apart
+			off := App("*", IntSort, IntConst(62135596800), IntConst(1000000000)) // not folded: exceeds int64
+			sh := intBin("bvadd", ns, off)
+			tr = intBin("bvsub", ns, App("mod", IntSort, sh, safeD))
+		} else {
+			// bit-vector mode: the origin offset does not fit in 64 bits; durations dividing 24h are exact
+			tr = BVBin("bvsub", ns, BVBin("bvsrem", ns, safeD))
+		}
 		return ret(st, &Struct{[]Value{t.F[0], Ite(pos, tr, ns), Ptr{}}})
 	}
 	stubTable["(time.Duration).String"] = func(e *Exec, st *State, fn *Func, args []Value, site string) []Outcome {
@@ -335,6 +345,55 @@ func initStringStubs() {
 		}
 		return ret(st, App("str.replace_all", StringSort, s, a, b))
 	}
+	stubTable["strings.ToLower"] = func(e *Exec, st *State, fn *Func, args []Value, site string) []Outcome {
+		s := args[0].(*Term)
+		if s.IsConst() {
+			return ret(st, StrConst(strings.ToLower(s.S)))
+		}
+		return ret(st, UF("strings_ToLower", StringSort, s))
+	}
+	stubTable["strings.ToUpper"] = func(e *Exec, st *State, fn *Func, args []Value, site string) []Outcome {
+		s := args[0].(*Term)
+		if s.IsConst() {
+			return ret(st, StrConst(strings.ToUpper(s.S)))
+		}
+		return ret(st, UF("strings_ToUpper", StringSort, s))
+	}
+	// sort.Slice / sort.SliceStable: insertion sort driven by the real less closure (its answers must be concrete).
+	// sort.Slice is not stable: for elements that compare equal every resulting order is possible; the model keeps
+	// their incoming order, which together with symbolic map-iteration orders covers the relevant cases.
+	sortSlice := func(e *Exec, st *State, fn *Func, args []Value, site string) []Outcome {
+		iv := args[0].(Iface)
+		sl, ok := iv.V.(Slice)
+		if !ok {
+			fail("sort.Slice on non-slice")
+		}
+		less := args[1]
+		n := sl.Len
+		for i := 1; i < n; i++ {
+			for j := i; j > 0; j-- {
+				outs := e.callValue(st, less, []Value{BVConst(uint64(j), 64), BVConst(uint64(j-1), 64)}, false, site)
+				if len(outs) != 1 || outs[0].kind != oReturn {
+					fail("sort.Slice: less function forked or panicked")
+				}
+				st = outs[0].st
+				r := outs[0].vals[0].(*Term)
+				if !r.IsConst() {
+					fail("sort.Slice: symbolic comparison result")
+				}
+				if r.IsFalse() {
+					break
+				}
+				arr := e.objContent(st, sl.Arr).(*Struct)
+				f := append([]Value(nil), arr.F...)
+				f[sl.Off+j], f[sl.Off+j-1] = f[sl.Off+j-1], f[sl.Off+j]
+				st.Heap[sl.Arr] = &Struct{f}
+			}
+		}
+		return ret(st)
+	}
+	stubTable["sort.Slice"] = sortSlice
+	stubTable["sort.SliceStable"] = sortSlice
 	stubTable["strings.Join"] = func(e *Exec, st *State, fn *Func, args []Value, site string) []Outcome {
 		s := args[0].(Slice)
 		sep := args[1].(*Term)
